@@ -7,7 +7,8 @@ package obiapat
 // Bounded exhaustive enumeration on the real cgo matcher (MakeApatPattern / ReverseComplement /
 // FindAllIndex / IsMatching / FilterBestMatch / BestMatch / AllMatches) against a brute-force model:
 //   part A  every short pattern (length 1..3 over {a,c,g,t,n,r,y,[ac]}, '!' and '#' modifiers at length <= 2)
-//           x every budget 0..min(4,len) x {mismatch, indel} x every sequence over {a,c,g,t} of length 0..6 (7 thorough)
+//           x every budget 0..4 (also beyond the pattern length) x {mismatch, indel} x every sequence over {a,c,g,t} of
+//           length 0..6 (7 thorough)
 //           (+ the reverse-complemented pattern on the same sequence)
 //   part B  every search window (begin,length) of every sequence of length 0..5
 //   part C  right edge of the search window on sequences longer than MAX_PAT_LEN
@@ -15,6 +16,9 @@ package obiapat
 //           (substitution / insertion / deletion at every position) inside 0..3 nt contexts
 //   part E  recycled ApatSequence histories (stale hit stacks / data buffers)
 //   part F  the sequence predicate IsPatternMatchSequence (one strand / both strands)
+//   part G  circular ApatSequences (matches across the origin): short patterns x all short circles x all windows, circles
+//           of 64..68 nt, every rotation of the edited copies of long patterns, recycling with a change of topology
+// Known-finding keys of 64-symbol patterns are conditioned on the exact signature of the known defect (c10sig64).
 // (obialign.LocatePattern, the DP that re-aligns indel hits, has its own harness in pkg__obialign.)
 // The oracle demands only what the property states (see c10ctx.check).
 
@@ -50,6 +54,8 @@ func c10base(b byte) uint8 {
 		return 4
 	case 't':
 		return 8
+	case 'x': // part G only: the filler behind a short circular sequence; no pattern symbol matches it, negated ones do
+		return 16
 	}
 	panic("c10: sequence alphabet is acgt")
 }
@@ -110,7 +116,7 @@ func c10parse(src string) (*c10pat, error) {
 			i++
 		}
 		if neg {
-			mask = ^mask & 15
+			mask = ^mask & 31 // a negated symbol matches every other letter ('x' included), as ~val & PATMASK does
 		}
 		t := c10tok{mask: mask}
 		if i < len(src) && src[i] == '#' {
@@ -290,6 +296,8 @@ type c10case struct {
 	Length int      `json:"length"`
 	RC     bool     `json:"rc"`             // also check the reverse-complemented pattern
 	Hist   []string `json:"hist,omitempty"` // sequences that went through the recycled ApatSequence before Seq
+	Circ   bool     `json:"circ,omitempty"` // Seq is a circular ApatSequence (part G)
+	HCirc  []bool   `json:"hcirc,omitempty"`
 }
 
 // c10ctx: one (pattern, sequence) pair with its budget-independent oracle data.
@@ -300,8 +308,14 @@ type c10ctx struct {
 	p    *c10pat
 	seq  []byte
 	as   ApatSequence
-	mm   []int   // pattern on seq
-	pm   [][]int // pm[b] = sellers(seq[b:]) (lazy)
+	text []byte  // what the C buffer holds as far as it is known: seq, or (circular) seq + wrapped copy + filler
+	mm   []int   // pattern on text
+	pm   [][]int // pm[b] = sellers(text[b:]) (lazy)
+	// circular sequences (part G)
+	circ      bool
+	hcirc     []bool
+	validEnd  int  // end of seq + its wrapped copy in text
+	tailKnown bool // text is the whole C buffer (L+64 symbols)
 	// reverse strand (full window only)
 	sfx64   string // key suffix for 64-symbol patterns, set by check() from the raw result of the search being judged
 	rcReady bool
@@ -312,20 +326,36 @@ type c10ctx struct {
 
 func (c *c10ctx) reset(p *c10pat, seq []byte, as ApatSequence) {
 	c.p, c.seq, c.as = p, seq, as
-	c.mm = p.mm(seq, c.mm)
-	if cap(c.pm) < len(seq)+1 {
-		c.pm = make([][]int, len(seq)+1)
+	c.text, c.circ = seq, false
+	c.retext()
+}
+
+func (c *c10ctx) retext() {
+	c.mm = c.p.mm(c.text, c.mm)
+	if cap(c.pm) < len(c.text)+1 {
+		c.pm = make([][]int, len(c.text)+1)
 	}
-	c.pm = c.pm[:len(seq)+1]
+	c.pm = c.pm[:len(c.text)+1]
 	for i := range c.pm {
 		c.pm[i] = c.pm[i][:0]
 	}
 	c.rcReady = false
 }
 
+// resetCirc: seq was given to MakeApatSequence with circular=true; text is what c10circText says the C buffer holds
+func (c *c10ctx) resetCirc(p *c10pat, seq []byte, as ApatSequence, text []byte, tailKnown bool) {
+	c.p, c.seq, c.as = p, seq, as
+	c.text, c.circ, c.tailKnown = text, true, tailKnown
+	c.validEnd = len(seq) + len(seq)
+	if len(seq) > c10MaxPatLen {
+		c.validEnd = len(seq) + c10MaxPatLen
+	}
+	c.retext()
+}
+
 func (c *c10ctx) sellersFrom(b int) []int {
 	if len(c.pm[b]) == 0 {
-		c.pm[b] = c.p.sellers(c.seq[b:], c.pm[b])
+		c.pm[b] = c.p.sellers(c.text[b:], c.pm[b])
 	}
 	return c.pm[b]
 }
@@ -392,10 +422,17 @@ func (c *c10ctx) violate(api string, cp *c10comp, class, suffix string, begin, l
 		c.r.Violate(key, "", nil)
 		return
 	}
-	desc := fmt.Sprintf("%s(pattern=%q maxerr=%d indel=%v, seq=%q, begin=%d, length=%d): %s", api, c.p.src, cp.e, cp.indel,
-		string(c.seq), begin, length, fmt.Sprintf(format, a...))
+	topo := ""
+	if c.circ {
+		topo = " CIRCULAR"
+	}
+	if len(c.hist) > 0 {
+		topo += fmt.Sprintf(" (ApatSequence recycled from %q, circular=%v)", c.hist, c.hcirc)
+	}
+	desc := fmt.Sprintf("%s(pattern=%q maxerr=%d indel=%v, seq=%q%s, begin=%d, length=%d): %s", api, c.p.src, cp.e, cp.indel,
+		string(c.seq), topo, begin, length, fmt.Sprintf(format, a...))
 	c.r.Violate(key, desc, c10case{Part: c.part, Pat: c.p.src, E: cp.e, Indel: cp.indel, Seq: string(c.seq),
-		Begin: begin, Length: length, RC: rc, Hist: c.hist})
+		Begin: begin, Length: length, RC: rc, Hist: c.hist, Circ: c.circ, HCirc: c.hcirc})
 }
 
 // c10sig64: what the known defect of 64-symbol patterns produces, and nothing else. With patlen = 64 the sentinel
@@ -803,6 +840,243 @@ func (c *c10ctx) check(cp *c10comp, begin, length int, doRC bool) {
 	}
 }
 
+// ---------------------------------------------------------------- circular sequences (part G)
+
+// c10mkcirc builds an ApatSequence (circular or not, fresh or recycled). For a circular one the C side stores seq followed
+// by the MAX_PAT_LEN bytes found at the start of the Go slice (EncodeSequence copies in[0..63] whatever the length): the
+// wrapped copy, and for a sequence shorter than 64 whatever lies behind the slice. To keep the runs deterministic the
+// slack capacity of the BioSequence's own slice (a pooled slice of capacity 300) is filled with 'x' beforehand; text is
+// then the whole C buffer and tailKnown is true. If the slack is too small, text stops after the wrapped copy.
+func c10mkcirc(s []byte, circular bool, recycle ...ApatSequence) (as ApatSequence, text []byte, tailKnown bool) {
+	bs := obiseq.NewBioSequence("c10", s, "")
+	L := len(s)
+	tailKnown = true
+	if circular && L < c10MaxPatLen {
+		raw := bs.Sequence()
+		if cap(raw) >= c10MaxPatLen {
+			full := raw[:c10MaxPatLen]
+			for i := L; i < c10MaxPatLen; i++ {
+				full[i] = 'x'
+			}
+			if again := bs.Sequence(); cap(again) < c10MaxPatLen || again[:c10MaxPatLen][c10MaxPatLen-1] != 'x' {
+				tailKnown = false // Sequence() handed out a copy: the bytes behind the sequence are not ours
+			}
+		} else {
+			tailKnown = false
+		}
+	}
+	var err error
+	as, err = MakeApatSequence(bs, circular, recycle...)
+	if err != nil {
+		panic("c10: MakeApatSequence: " + err.Error())
+	}
+	if !circular {
+		return as, s, true
+	}
+	text = append([]byte(nil), s...)
+	for i := 0; i < c10MaxPatLen; i++ {
+		switch {
+		case i < L:
+			text = append(text, s[i])
+		case tailKnown:
+			text = append(text, 'x')
+		}
+	}
+	return as, text, tailKnown
+}
+
+// checkCirc: FindAllIndex and IsMatching (the two observation points used on circular sequences, by the PCR code) on one
+// window of the current circular sequence. Coordinates are those of the unrolled text seq+seq[:64]; L = len(seq).
+//
+// Demanded (pattern not longer than the sequence):
+//   - mismatch mode: every reported hit that lies in the known part of the buffer is a true match of the pattern on the
+//     unrolled text (for a start < L: a match of the circular sequence at that position, junction included) with its
+//     exact count, starts at or after begin and ends inside the scanned extent; no hit is reported twice; every match
+//     with start in [begin, L) that lies inside the window [begin, begin+length) of the unrolled text is reported - the
+//     whole circle (begin 0, length -1 or >= L) meaning every start 0..L-1, the ones straddling the origin included.
+//     Copies of a match at start+L are allowed (the implementation reports them when they fit) but not demanded.
+//   - indel mode: something is reported iff some non-empty substring of the unrolled window is within the budget
+//     (nothing demanded from, and nothing excused by, bytes behind the wrapped copy unless they are known).
+func (c *c10ctx) checkCirc(cp *c10comp, begin, length int) {
+	r := c.r
+	p := c.p
+	m := len(p.toks)
+	L := len(c.seq)
+	T := len(c.text)
+	e := cp.e
+	r.Eval(1)
+	c.sfx64 = ""
+	if cp.perr != nil || m > L {
+		return
+	}
+	eb := begin
+	if eb < 0 {
+		eb = 0
+	}
+	el := length
+	if el < 0 {
+		el = L
+	}
+	scanEnd := eb + el + c10MaxPatLen
+	if scanEnd > L+c10MaxPatLen {
+		scanEnd = L + c10MaxPatLen
+	}
+	mustEnd := eb + el
+	if mustEnd > c.validEnd || (eb == 0 && el >= L) {
+		mustEnd = c.validEnd
+	}
+	mayEnd := scanEnd
+	mayKnown := true
+	if mayEnd > T {
+		mayEnd, mayKnown = T, false
+	}
+	where := func(s int) string {
+		switch {
+		case s >= L:
+			return ":wrapped-copy"
+		case s+m > L:
+			return ":across-origin"
+		}
+		return ":inside"
+	}
+
+	var got [][3]int
+	cls, msg := c10try(func() { got = cp.p.FindAllIndex(c.as, begin, length) })
+	r.Trans(1)
+	var im bool
+	cls2, msg2 := c10try(func() { im = cp.p.IsMatching(c.as, begin, length) })
+	r.Trans(1)
+	if cls != "" {
+		c.violate("Circ.FindAllIndex", cp, cls, "", begin, length, false, "%s", msg)
+	}
+	if cls2 != "" {
+		c.violate("Circ.IsMatching", cp, cls2, "", begin, length, false, "%s", msg2)
+	}
+	if cls != "" || cls2 != "" {
+		return
+	}
+
+	var must, may bool
+	imSfx := ":inside" // ":across-origin" when every demanded match needs the wrapped copy
+	if !cp.indel {
+		ok := true
+		if !sort.SliceIsSorted(got, func(i, j int) bool { return got[i][0] < got[j][0] }) { // the order is not constrained
+			got = append([][3]int(nil), got...)
+			sort.Slice(got, func(i, j int) bool { return got[i][0] < got[j][0] })
+		}
+		for i, h := range got {
+			s := h[0]
+			if h[1] != s+m || s < 0 || s+m > L+c10MaxPatLen {
+				c.violate("Circ.FindAllIndex", cp, "span-outside-sequence", "", begin, length, false, "reported %v (sequence length %d + %d wrapped, pattern length %d)", h, L, c10MaxPatLen, m)
+				ok = false
+				break
+			}
+			if s+m > T {
+				r.Count("circular_hits_in_unknown_tail(not judged)", 1)
+				continue
+			}
+			if c.mm[s] < 0 || c.mm[s] > e {
+				c.violate("Circ.FindAllIndex", cp, "spurious-hit", where(s), begin, length, false, "reported %v but the pattern has %d mismatches there on the unrolled text %q (-1 = mismatch on a '#' position)", h, c.mm[s], string(c.text))
+				ok = false
+				break
+			}
+			if h[2] != c.mm[s] {
+				c.violate("Circ.FindAllIndex", cp, "wrong-errcount", where(s), begin, length, false, "reported %v, true mismatch count %d on the unrolled text %q", h, c.mm[s], string(c.text))
+				ok = false
+				break
+			}
+			if s < eb || s+m > scanEnd {
+				c.violate("Circ.FindAllIndex", cp, "hit-outside-window", where(s), begin, length, false, "reported %v, window starts at %d, scan ends at %d", h, eb, scanEnd)
+				ok = false
+				break
+			}
+			if i > 0 && s == got[i-1][0] {
+				c.violate("Circ.FindAllIndex", cp, "duplicate-hit", where(s), begin, length, false, "reported %v twice (%v)", h, got[i-1])
+				ok = false
+				break
+			}
+		}
+		gi := 0
+		imSfx = ":across-origin"
+		for st := eb; ok && st < L && st+m <= mustEnd; st++ {
+			if c.mm[st] >= 0 && c.mm[st] <= e {
+				must = true
+				if st+m <= L {
+					imSfx = ":inside"
+				}
+				r.Count("circular_hits_expected", 1)
+				if st+m > L {
+					r.Count("circular_hits_expected_across_origin", 1)
+				}
+				for gi < len(got) && got[gi][0] < st {
+					gi++
+				}
+				if gi >= len(got) || got[gi][0] != st {
+					c.violate("Circ.FindAllIndex", cp, "missed-hit", where(st), begin, length, false, "match at %d with %d mismatches on the unrolled text %q not reported; got %v", st, c.mm[st], string(c.text), got)
+					ok = false
+				}
+			}
+		}
+		for st := eb; st+m <= mayEnd; st++ {
+			if c.mm[st] >= 0 && c.mm[st] <= e {
+				may = true
+				break
+			}
+		}
+	} else {
+		pm := c.sellersFrom(eb)
+		must = mustEnd > eb && pm[mustEnd-eb] <= e
+		may = mayEnd > eb && pm[mayEnd-eb] <= e
+		sfx := ":inside"
+		if le := min(mustEnd, L); must && !(le > eb && pm[le-eb] <= e) {
+			sfx = ":across-origin" // the match exists only thanks to the wrapped copy
+			imSfx = sfx
+			r.Count("circular_indel_matches_only_across_origin", 1)
+		}
+		if len(got) == 0 && must {
+			c.violate("Circ.FindAllIndex", cp, "missed-match", sfx, begin, length, false, "reports nothing but a substring of the unrolled text %q within the budget lies inside the window", string(c.text))
+		}
+		if len(got) > 0 && !may && mayKnown {
+			c.violate("Circ.FindAllIndex", cp, "spurious-match", "", begin, length, false, "reports %v but no substring of the scanned text %q is within the budget", got, string(c.text[eb:mayEnd]))
+		}
+	}
+	if must {
+		r.Count("circular_cases_with_match", 1)
+	} else if !may {
+		r.Count("circular_cases_without_match", 1)
+	}
+	if !mayKnown {
+		r.Count("circular_cases_scanning_unknown_bytes", 1)
+	}
+	if !im && must {
+		c.violate("Circ.IsMatching", cp, "missed-match", imSfx, begin, length, false, "false but a match within budget lies inside the window of the unrolled text %q", string(c.text))
+	}
+	if im && !may && mayKnown {
+		c.violate("Circ.IsMatching", cp, "spurious-match", "", begin, length, false, "true but nothing in the scanned text %q is within the budget", string(c.text[eb:mayEnd]))
+	}
+}
+
+// c10dirty leaves hits of several kinds on the C stacks of as (part G histories: what a previous use of a recycled
+// ApatSequence leaves behind)
+var c10dirtyPats []ApatPattern
+
+func c10dirty(as ApatSequence) {
+	if c10dirtyPats == nil {
+		for _, src := range []string{"n", "a", "nc"} {
+			for _, e := range []int{0, 1} {
+				for _, indel := range []bool{false, true} {
+					if pt, err := MakeApatPattern(src, e, indel); err == nil {
+						c10dirtyPats = append(c10dirtyPats, pt)
+					}
+				}
+			}
+		}
+	}
+	for _, pt := range c10dirtyPats {
+		pt.FindAllIndex(as, 0, -1)
+	}
+}
+
 // ---------------------------------------------------------------- enumeration helpers
 
 // c10budgets: every budget of the quantifier (0..4), also when it exceeds the pattern length (a legal call: every
@@ -937,6 +1211,28 @@ func TestVerifC10(t *testing.T) {
 			return
 		}
 		var as ApatSequence
+		if cs.Part == "G" {
+			var rec []ApatSequence
+			for i, h := range cs.Hist {
+				as, _, _ = c10mkcirc([]byte(h), cs.HCirc[i], rec...)
+				c10dirty(as)
+				rec = []ApatSequence{as}
+			}
+			var text []byte
+			var tk bool
+			as, text, tk = c10mkcirc([]byte(cs.Seq), cs.Circ, rec...)
+			ctx.hcirc = cs.HCirc
+			if cs.Circ {
+				ctx.resetCirc(m, []byte(cs.Seq), as, text, tk)
+				ctx.checkCirc(ent.comps[0], cs.Begin, cs.Length)
+			} else {
+				ctx.reset(m, []byte(cs.Seq), as)
+				ctx.check(ent.comps[0], cs.Begin, cs.Length, cs.RC)
+			}
+			as.Free()
+			ent.free()
+			return
+		}
 		if len(cs.Hist) > 0 {
 			_, as = c10mkseq([]byte(cs.Hist[0]))
 			ent.comps[0].p.FindAllIndex(as, 0, -1)
@@ -1213,6 +1509,9 @@ func TestVerifC10(t *testing.T) {
 		var preds []pred
 		for _, ent := range entB {
 			for _, cp := range ent.comps {
+				if cp.perr != nil || cp.rcerr != nil {
+					continue // reported by check(); IsPatternMatchSequence would exit the process
+				}
 				for _, both := range []bool{false, true} {
 					preds = append(preds, pred{ent, cp, both, IsPatternMatchSequence(ent.m.src, cp.e, both, cp.indel)})
 				}
@@ -1233,6 +1532,217 @@ func TestVerifC10(t *testing.T) {
 				expired = true
 			}
 		})
+	}
+
+	// ======== part G: circular sequences (MakeApatSequence(circular=true): matches across the origin) ========
+	ctx.part = "G"
+	{
+		var entG []*c10entry
+		entG = append(entG, entB...)
+		for _, src := range []string{"r", "ry", "[ac]t", "t[ag]c", "!ag", "c!t", "g#t", "t#"} {
+			m, err := c10parse(src)
+			if err != nil {
+				panic("c10: " + err.Error())
+			}
+			modes := []bool{false, true}
+			if m.hasOblig {
+				modes = []bool{false}
+			}
+			entG = append(entG, c10compile(m, c10budgets(len(m.toks)), modes))
+		}
+		maxG := 5
+		if thorough {
+			maxG = 6
+		}
+		r.Bound("G_circular", fmt.Sprintf("circular ApatSequences. G1: patterns of B + 8 with classes / '!' / '#', every budget and mode, every sequence over acgt of length 1..%d not shorter than the pattern, every window begin 0..L-1 x length {-1, 0..L, L+64}; G2: sequences u+g^64+w (u,w in {a,c}^0..2: no byte behind the wrapped copy), windows around the origin; G3: every rotation of every copy with <= 1 edit of 2 patterns of 20 symbols (16 contexts) and 1 of 32 symbols (4 contexts), of the exact copies (thorough: <= 1 edit) of a 63-symbol pattern; G4: one ApatSequence recycled through every ordered pair (sequence, topology) x (sequence, topology) of sequences of length 0..3 and two of length 66/70, except linear -> linear (part E); all patterns of G1 on a circular last use, those of <= 2 symbols and every observation point on a linear one", maxG))
+
+		// G1
+		verifkit.Strings("acgt", 1, maxG, func(s string) {
+			mine := r.Mine(k)
+			k++
+			if !mine || expired || !on("G") {
+				return
+			}
+			seq := []byte(s)
+			L := len(seq)
+			as, text, tk := c10mkcirc(seq, true)
+			if !tk {
+				r.Count("circular_sequences_with_unknown_tail", 1)
+			}
+			for _, ent := range entG {
+				if len(ent.m.toks) > L {
+					continue
+				}
+				ctx.resetCirc(ent.m, seq, as, text, tk)
+				for _, cp := range ent.comps {
+					for b := 0; b < L; b++ {
+						for l := -1; l <= L+1; l++ {
+							if l == L+1 {
+								l = L + c10MaxPatLen // what _Pcr passes for a circular sequence
+							}
+							ctx.checkCirc(cp, b, l)
+						}
+					}
+				}
+			}
+			r.Count("circular_sequences", 1)
+			as.Free()
+			if r.Expired() {
+				expired = true
+			}
+		})
+		t.Logf("c10: part G1 done at %v", time.Since(t0))
+
+		// G2: the wrapped copy is complete (L >= 64)
+		for _, u := range verifkit.AllStrings("ac", 0, 2) {
+			for _, w := range verifkit.AllStrings("ac", 0, 2) {
+				mine := r.Mine(k)
+				k++
+				if !mine || expired || !on("G") {
+					continue
+				}
+				seq := []byte(u + strings.Repeat("g", 64) + w)
+				L := len(seq)
+				as, text, tk := c10mkcirc(seq, true)
+				for _, ent := range entG {
+					ctx.resetCirc(ent.m, seq, as, text, tk)
+					for _, cp := range ent.comps {
+						for _, win := range [][2]int{{0, -1}, {0, L + c10MaxPatLen}, {1, -1}, {L - 1, -1}, {L - 2, -1}, {L - 3, -1}, {L - 1, 1}, {L - 1, 2}, {L - 2, 4}, {L - 3, 4}, {L - 3, 3}, {0, L}, {0, L - 1}} {
+							ctx.checkCirc(cp, win[0], win[1])
+						}
+					}
+				}
+				r.Count("circular_sequences", 1)
+				as.Free()
+			}
+		}
+		if r.Expired() {
+			expired = true
+		}
+		t.Logf("c10: part G2 done at %v", time.Since(t0))
+
+		// G3: long patterns, every rotation of every edited copy in context
+		{
+			const g1 = "gatcctgagtcaagcttacgacgtgcatcggattacaggcttcaactgtgccagtatcgaccta"
+			const g2 = "gtgycagcmgccgcggtaanacvwtbgdhksrttagayccbtgtagtccnacgttgcaarctyg"
+			type rotPat struct {
+				src    string
+				kQ, kT int
+				ctxs   []string
+			}
+			all4 := []string{"", "g", "ca", "tgc"}
+			two := []string{"", "ca"}
+			for _, rp := range []rotPat{{g1[:20], 1, 1, all4}, {g2[:20], 1, 1, all4}, {g2[:32], 1, 1, two}, {g2[:63], 0, 1, two}} {
+				m, err := c10parse(rp.src)
+				if err != nil {
+					panic("c10: " + err.Error())
+				}
+				ent := c10compile(m, c10budgets(len(m.toks)), []bool{false, true})
+				kk := rp.kQ
+				if thorough {
+					kk = rp.kT
+				}
+				done := 0
+				var lin []byte
+				c10variants(m.instance(), kk, func(v []byte, edits int) {
+					mine := r.Mine(k)
+					k++
+					if !mine || expired || !on("G") {
+						return
+					}
+					for _, lc := range rp.ctxs {
+						for _, rcx := range rp.ctxs {
+							lin = append(append(append(lin[:0], lc...), v...), rcx...)
+							L := len(lin)
+							if L < len(m.toks) {
+								continue
+							}
+							for rot := 0; rot < L; rot++ {
+								seq := append(append([]byte(nil), lin[rot:]...), lin[:rot]...)
+								r.StateH(c10hash(seq) ^ 0x9e3779b97f4a7c15)
+								as, text, tk := c10mkcirc(seq, true)
+								ctx.resetCirc(m, seq, as, text, tk)
+								for _, cp := range ent.comps {
+									ctx.checkCirc(cp, 0, -1)
+									ctx.checkCirc(cp, 0, L+c10MaxPatLen)
+								}
+								as.Free()
+								r.Count("circular_rotations_of_long_pattern_sites", 1)
+							}
+						}
+					}
+					done++
+					if done%16 == 0 && r.Expired() {
+						expired = true
+					}
+				})
+				ent.free()
+			}
+		}
+		t.Logf("c10: part G3 done at %v", time.Since(t0))
+
+		// G4: recycled ApatSequence, topology changing between the uses
+		{
+			var entH []*c10entry
+			for _, ent := range entG {
+				if len(ent.m.toks) <= 2 {
+					entH = append(entH, ent)
+				}
+			}
+			hseqs := verifkit.AllStrings("acgt", 0, 3)
+			hseqs = append(hseqs, "ac"+strings.Repeat("g", 62)+"ca", "a"+strings.Repeat("c", 68)+"t")
+			for _, a := range hseqs {
+				for _, ca := range []bool{false, true} {
+					for _, b := range hseqs {
+						mine := r.Mine(k)
+						k++
+						if !mine || expired || !on("G") {
+							continue
+						}
+						for _, cb := range []bool{false, true} {
+							if !ca && !cb {
+								continue // part E
+							}
+							as, _, _ := c10mkcirc([]byte(a), ca)
+							c10dirty(as)
+							as, text, tk := c10mkcirc([]byte(b), cb, as)
+							ctx.hist, ctx.hcirc = []string{a}, []bool{ca}
+							if as.Len() != len(b) {
+								r.Violate("MakeApatSequence/recycle/wrong-length", fmt.Sprintf("history %q (circular=%v) then %q (circular=%v): Len()=%d", a, ca, b, cb, as.Len()), nil)
+							}
+							ents := entH
+							if cb {
+								ents = entG // a 3-symbol pattern needs two wrapped symbols
+							}
+							for _, ent := range ents {
+								if cb {
+									ctx.resetCirc(ent.m, []byte(b), as, text, tk)
+								} else {
+									ctx.reset(ent.m, []byte(b), as)
+								}
+								for _, cp := range ent.comps {
+									if cb {
+										ctx.checkCirc(cp, 0, -1)
+									} else {
+										ctx.check(cp, 0, -1, false)
+									}
+								}
+							}
+							ctx.hist, ctx.hcirc = nil, nil
+							as.Free()
+							r.Count("circular_recycle_histories", 1)
+						}
+					}
+					if r.Expired() {
+						expired = true
+					}
+				}
+			}
+		}
+		t.Logf("c10: part G4 done at %v", time.Since(t0))
+		for _, ent := range entG[len(entB):] {
+			ent.free()
+		}
 	}
 	for _, ent := range entA {
 		ent.free()
@@ -1310,6 +1820,9 @@ func TestVerifC10(t *testing.T) {
 	r.RequireNonVacuous("cases_with_match")
 	r.RequireNonVacuous("cases_without_match")
 	r.RequireNonVacuous("rc_checked")
+	r.RequireNonVacuous("circular_hits_expected_across_origin")
+	r.RequireNonVacuous("circular_indel_matches_only_across_origin")
+	r.RequireNonVacuous("circular_cases_without_match")
 	r.Sample(c10case{Part: "A", Pat: "r[ac]!t", E: 1, Indel: false, Seq: "gatac", Begin: 0, Length: -1, RC: true})
 	r.Sample(c10case{Part: "B", Pat: "acn", E: 1, Indel: true, Seq: "tacgt", Begin: 1, Length: 3})
 	r.Sample(c10case{Part: "D", Pat: m2[:20], E: 3, Indel: true, Seq: "g" + string(c10mustInstance(m2[:20])) + "ca", Begin: 0, Length: -1, RC: true})
